@@ -1,4 +1,5 @@
 import Driver.Buddy
+import Driver.Region
 import Driver.Key
 import Driver.Table
 import Driver.Multimap
@@ -32,6 +33,9 @@ def dispatch (st : DState) (line : String) : DState × String :=
   | "buddy" :: rest =>
     let (b, out) := buddyStep st.buddy rest obs
     ({ st with buddy := b }, out)
+  | "rg" :: rest =>
+    -- snapshots of the region level of the allocator (C14), Driver/Region.lean
+    (st, rgStep rest)
   | "key" :: rest => (st, keyStep rest obs)
   | "tbl" :: rest =>
     let (t, out) := tblStep st.tbl rest obs
